@@ -72,7 +72,7 @@ class _FakeTCP:
 class World:
     """One client + bookkeeping.  Attempts are numbered in fetch_impl order."""
 
-    def __init__(self, max_clients):
+    def __init__(self, max_clients, defaults=None):
         import tornado.simple_httpclient as shc
         from tornado.ioloop import IOLoop
         self.shc = shc
@@ -111,7 +111,7 @@ class World:
                     return conn
                 return make
 
-        self.client = Client(force_instance=True, max_clients=max_clients)
+        self.client = Client(force_instance=True, max_clients=max_clients, defaults=defaults)
         self.client.io_loop = self.loop
         self.client.tcp_client = _FakeTCP(self)
         self.attempts = []
@@ -365,9 +365,11 @@ def coq_redirect(case):
     mr = "(@None Z)" if case["maxred"] is None else "(Some %s)" % G.gz(case["maxred"])
     fo = "(@None bool)" if case["follow"] is None else "(Some %s)" % G.gbool(case["follow"])
     script = G.glist(["(mkHop %s %s %s)" % (G.gz(c), G.gbool(loc is not None), g_text(j)) for c, loc, j in case["hops"]], "hop")
-    return "(CRedir (mkRCase %s %s %s %s %s %s %s %s %s %s %s %s))" % (
+    dm = case.get("defmax")
+    dmx = "(@None Z)" if dm is None else "(Some %s)" % G.gz(dm)
+    return "(CRedir (mkRCase %s %s %s %s %s %s %s %s %s %s %s %s %s))" % (
         g_text(tornado_version()), g_text(case["url"]), g_text(case["method"]), body, hdrs, G.gbool(bool(case.get("dict"))),
-        g_otext(case["auth_user"]), g_otext(case["auth_pass"]), mr, fo, g_otext(case["ua"]), script)
+        g_otext(case["auth_user"]), g_otext(case["auth_pass"]), mr, fo, g_otext(case["ua"]), dmx, script)
 
 
 MULTI_COOKIE = [("Cookie", "a=1"), ("cookie", "b=2")]
@@ -395,6 +397,10 @@ def corpus_cases():
           headers=[("Cookie", "a=1")]),
         R("http://a.test/x", [(302, "http://u@b.test:99999/")]),
         R("http://a.test/x", [(302, "/1"), (302, "/2"), (302, "/3")], maxred=2),
+        # the limit comes from the client's defaults / from the built-in default: a loop must stop
+        R("http://a.test/x", [(302, "/loop")] * 4, defmax=2),
+        R("http://a.test/x", [(302, "/loop")] * 8),
+        R("http://a.test/x", [(307, "/loop")] * 3, defmax=0),
         R("http://user@a.test/x", []),
         R("ftp://a.test/x", []),
         R("http://a.test/x", [(302, "ftp://b.test/")]),
@@ -641,8 +647,29 @@ def rand_redir(rng):
         hops.append([code, None if rng.random() < 0.05 else rand_loc(rng, url)])
     c = R(url, hops, method=method, body=body, headers=hdrs, auth_user=au, auth_pass=ap,
           maxred=rng.choice([None, None, 0, 1, 2, 3, 6, -1]), follow=rng.choice([None, True, True, False]),
-          ua=rng.choice([None, None, None, "ua/1", ""]), dict=(rng.random() < 0.3))
+          ua=rng.choice([None, None, None, "ua/1", ""]), dict=(rng.random() < 0.3),
+          defmax=rng.choice([None, None, None, 0, 1, 2, 3, 7]))
     return c
+
+
+def gen_loops(rng, quick):
+    """redirect chains LONGER than the limit (loops included), for each source of max_redirects:
+    explicit on the request / the client's defaults / the built-in default 5"""
+    out = []
+    for src in ("request", "client", "builtin", "both"):
+        for k in ((0, 1, 2, 3) if src != "builtin" else (5,)):
+            for variant in range(2 if quick else 6):
+                n = k + rng.choice([1, 2, 3, 4])
+                if variant == 0:
+                    hops = [(rng.choice([302, 307, 301, 308, 303]), "/loop")] * n          # a loop
+                elif variant == 1:
+                    hops = [(302, "http://%s.test/p%d" % ("ab"[i % 2], i)) for i in range(n)]   # ping-pong between two hosts
+                else:
+                    hops = [(rng.choice([301, 302, 303, 307, 308]), rand_loc(rng, "http://a.test/x")) for _ in range(n)]
+                kw = {"request": dict(maxred=k), "client": dict(defmax=k), "builtin": {},
+                      "both": dict(maxred=k, defmax=rng.choice([0, 9]))}[src]
+                out.append(R("http://a.test/x", hops, headers=[("Cookie", "a=1")] if variant else [], **kw))
+    return out
 
 
 def enum_redir():
@@ -737,6 +764,7 @@ def gen_cases(rng, tier):
         if modelled(c):
             out.append(c)
             n += 1
+    out += [c for c in gen_loops(rng, quick) if modelled(c)]
     en = [c for c in enum_redir() if modelled(c)]
     en = rng.sample(en, 90 if quick else 1100)
     out += en
@@ -792,7 +820,7 @@ def py_check_redir(case, o):
     if not (isinstance(o, list) and len(o) == 2 and isinstance(o[0], list)):
         return False
     hops = o[0]
-    maxred = 5 if case["maxred"] is None else case["maxred"]
+    maxred = case["maxred"] if case["maxred"] is not None else (case["defmax"] if case.get("defmax") is not None else 5)
     follow = True if case["follow"] is None else case["follow"]
     if len(hops) > 1 + (max(0, maxred) if follow else 0):
         return False
@@ -848,6 +876,7 @@ def classify(case, o):
         hops = o[0] if isinstance(o, list) and o and isinstance(o[0], list) else []
         yield "requests=%d" % len(hops)
         yield "method=" + case["method"]
+        yield "max_redirects-from=" + ("request" if case["maxred"] is not None else "client-defaults" if case.get("defmax") is not None else "built-in")
         yield "cookies=%d" % sum(1 for n, _ in case["headers"] if n.lower() == "cookie")
         yield "authz=%d" % sum(1 for n, _ in case["headers"] if n.lower() == "authorization")
         yield "url-credentials=%s" % ("@" in urllib.parse.urlsplit(case["url"]).netloc)
@@ -942,7 +971,8 @@ def run_redirect(case):
     from tornado.httputil import HTTPHeaders
 
     async def scenario(loop):
-        w = World(2)
+        dm = case.get("defmax")
+        w = World(2, None if dm is None else dict(max_redirects=dm))
         hops = []
         try:
             try:
@@ -1007,7 +1037,8 @@ def run_redirect(case):
         logging.disable(logging.NOTSET)
 
 
-def redir(url, hops, method="GET", body=None, headers=(), auth_user=None, auth_pass=None, maxred=None, follow=True, ua=None, dict=False):
-    return {"kind": "redir", "dict": bool(dict), "url": url, "method": method, "body": body, "headers": [list(x) for x in headers],
+def redir(url, hops, method="GET", body=None, headers=(), auth_user=None, auth_pass=None, maxred=None, follow=True, ua=None, dict=False,
+          defmax=None):
+    return {"kind": "redir", "dict": bool(dict), "defmax": defmax, "url": url, "method": method, "body": body, "headers": [list(x) for x in headers],
             "auth_user": auth_user, "auth_pass": auth_pass, "maxred": maxred, "follow": follow, "ua": ua,
             "hops": [list(x) for x in hops]}
